@@ -419,20 +419,43 @@ Proof.
   rewrite Hi, Hr. eexists. split; [reflexivity|]. unfold R, with_os; simpl. auto.
 Qed.
 
+Lemma write_ret_cases o d r o' : adfi_write o d = Some (r, o') -> r = Z.of_nat (length d) \/ r = -1.
+Proof.
+  intros H. destruct (adfi_write_retry o d) as (r1 & o1 & nl & H1 & S). rewrite H in H1. inversion H1; subst.
+  destruct (accepted (resps o) (length d)) as [k e].
+  destruct S as (_ & _ & _ & _ & _ & _ & [(E1 & E2 & E3)|(E1 & E2 & E3)]); auto.
+Qed.
+
+Lemma sim_fsync_prim f i r e f' :
+  Ro f i -> sys_fsync f = (r, e, f') -> (r <? 0) = false -> exists i', sys_fsync i = (r, 0, i') /\ Ro f' i'.
+Proof.
+  intros (Hd & Hp & Hn & He) H Hr. unfold sys_fsync in *. rewrite Hn.
+  destruct (resps f) as [|[n| |x] rs]; inversion H; subst; clear H; try discriminate; simpl;
+    (eexists; split; [reflexivity|]; unfold Ro; simpl; auto).
+Qed.
+
+Lemma sim_close_prim f i r e f' :
+  Ro f i -> sys_close f = (r, e, f') -> (r <? 0) = false -> exists i', sys_close i = (r, 0, i') /\ Ro f' i'.
+Proof.
+  intros (Hd & Hp & Hn & He) H Hr. unfold sys_close in *. rewrite Hn.
+  destruct (resps f) as [|[n| |x] rs]; inversion H; subst; clear H; try discriminate; simpl;
+    (eexists; split; [reflexivity|]; unfold Ro; simpl; auto).
+Qed.
+
 Lemma sim_fsync sf si sf' :
   R sf si -> fflush_file sf = Done tt sf' -> exists si', fflush_file si = Done tt si' /\ R sf' si'.
 Proof.
-  intros (Hc & Hu & (Hd & Hp & Hn & He)) H. unfold fflush_file in *. rewrite <- Hu.
+  intros (Hc & Hu & Ho) H. unfold fflush_file in *. rewrite <- Hu.
   destruct (negb (in_use sf)); [discriminate|].
-  unfold sys_fsync in *. simpl resps in *. rewrite Hn.
-  destruct (resps (o_ sf)) as [|[n| |x] rs]; simpl in *; inversion H; subst; clear H;
-    (eexists; split; [reflexivity|]; unfold R, Ro, with_os; simpl; auto).
+  destruct (sys_fsync (set_sys_err (o_ sf) 0)) as [[r e] f'] eqn:Hs.
+  destruct (r <? 0) eqn:Hr; [discriminate|]. inversion H; subst sf'. clear H.
+  destruct (sim_fsync_prim _ (set_sys_err (o_ si) 0) _ _ _ (Ro_sys_err _ _ 0 0 Ho) Hs Hr) as (i' & Hi & Hro).
+  rewrite Hi, Hr. eexists. split; [reflexivity|]. unfold R, with_os; simpl. auto.
 Qed.
 
-(* an operation that reports success on the faulty OS (and saw no hard read error) did exactly what the same
-   operation does on the fault-free OS *)
 Ltac inv H := inversion H; subst; clear H.
 
+(* ADFI_write_file *)
 Lemma sim_write_file sf si fi b off data sf' :
   R sf si -> write_file sf fi b off data = Done tt sf' -> rderr (o_ sf') = false ->
   exists si', write_file si fi b off data = Done tt si' /\ R sf' si'.
@@ -443,7 +466,6 @@ Proof.
   set (len := Z.of_nat (length data)) in *.
   set (end_block := b + (off + len) / DISK_BLOCK_SIZE + 1) in *.
   set (c1 := if (last_rd_file c =? fi) && (last_rd_block c >=? b) && (last_rd_block c <=? end_block) then reset_rd c else c) in *.
-  (* phase 1: flush *)
   match type of H with
   | match ?FL with _ => _ end = _ => set (flushF := FL) in *
   end.
@@ -452,6 +474,8 @@ Proof.
   end.
   assert (P1 : forall s1, flushF = Done tt s1 -> exists s1', flushI = Done tt s1' /\ R s1 s1').
   { intros s1 E. subst flushF flushI.
+    change (with_cache {| o_ := io; c_ := c; in_use := u |} c1) with (mkSt io c1 u).
+    change (with_cache {| o_ := fo; c_ := c; in_use := u |} c1) with (mkSt fo c1 u) in E.
     destruct (((len + off >? DISK_BLOCK_SIZE) || negb (last_wr_block c1 =? b) || negb (last_wr_file c1 =? fi) || (len =? 0)) &&
               (flush_wr c1 >? 0)).
     - destruct (fseek_file (mkSt fo c1 u) (last_wr_block c1) 0) as [[] s2| |] eqn:Hs; try discriminate.
@@ -460,10 +484,52 @@ Proof.
       destruct (adfi_write (o_ s2) (wr_buf c1)) as [[iret o2]|] eqn:Hw; [|discriminate].
       destruct (negb (iret =? DISK_BLOCK_SIZE)) eqn:Hi; [discriminate|].
       apply negb_false_iff, Z.eqb_eq in Hi.
-      (* the buffer is 4096 bytes long whenever iret = 4096 is compared with the bytes written: we only need
-         that the faulty write returned its full length, which is what iret = length says when they coincide;
-         otherwise the ideal write would return a different value -- handled by requiring the invariant below *)
-      admit.
+      assert (Hfull : iret = Z.of_nat (length (wr_buf c1))).
+      { destruct (write_ret_cases _ _ _ _ Hw) as [X|X]; [exact X|]. rewrite X in Hi. discriminate. }
+      destruct (sim_write _ _ _ _ _ Rro Hw Hfull) as (i2 & Hw' & Rro2).
+      rewrite Hw'. rewrite Hi. change (negb (DISK_BLOCK_SIZE =? DISK_BLOCK_SIZE)) with false. cbv iota.
+      rewrite <- Ru. cbn [c_ last_wr_file last_wr_block set_flush] in E |- *.
+      destruct ((last_wr_file c1 =? fi) && (last_wr_block c1 >=? b) && (last_wr_block c1 <=? end_block));
+        inv E; (eexists; split; [reflexivity|]; unfold R, with_cache; simpl; auto).
     - inv E. eexists. split; [reflexivity|]. unfold R; simpl; auto. }
-  admit.
-Admitted.
+  destruct flushF as [[] s1| |] eqn:EF; try discriminate.
+  destruct (P1 s1 eq_refl) as (s1' & EI & (Rc1 & Ru1 & Rro1)). rewrite EI. clear P1.
+  destruct (len =? 0) eqn:Hl0.
+  { inv H. eexists. split; [reflexivity|]. unfold R; auto. }
+  destruct (len + off >? DISK_BLOCK_SIZE) eqn:Hbig.
+  - (* large piece *)
+    destruct (fseek_file s1 b off) as [[] s2| |] eqn:Hs; try discriminate.
+    destruct (sim_fseek s1 s1' _ _ _ ltac:(unfold R; auto) Hs) as (s2' & Hs' & (Rc & Ru & Rro)).
+    rewrite Hs'.
+    destruct (adfi_write (o_ s2) data) as [[iret o2]|] eqn:Hw; [|discriminate].
+    destruct (negb (iret =? len)) eqn:Hi; [discriminate|].
+    apply negb_false_iff, Z.eqb_eq in Hi.
+    destruct (sim_write _ _ _ _ _ Rro Hw Hi) as (i2 & Hw' & Rro2).
+    rewrite Hw'. rewrite Hi. rewrite Z.eqb_refl. cbv [negb]. inv H.
+    eexists. split; [reflexivity|]. unfold R, with_os; simpl; auto.
+  - (* small piece: through the block buffer *)
+    rewrite <- Rc1.
+    match type of H with
+    | match ?LD with _ => _ end = _ => set (loadF := LD) in *
+    end.
+    match goal with
+    | |- exists si', match ?LD with _ => _ end = _ /\ _ => set (loadI := LD)
+    end.
+    assert (P2 : forall s2, loadF = Done tt s2 -> rderr (o_ s2) = false -> exists s2', loadI = Done tt s2' /\ R s2 s2').
+    { intros s2 E Hrd. subst loadF loadI. cbn [with_cache o_ in_use c_] in *.
+      destruct (negb (b =? last_wr_block (c_ s1)) || negb (fi =? last_wr_file (c_ s1))).
+      - destruct ((b =? last_rd_block (c_ s1)) && (fi =? last_rd_file (c_ s1))).
+        + inv E. eexists. split; [reflexivity|]. unfold R, with_cache; simpl; auto.
+        + destruct (fseek_file s1 b 0) as [[] s3| |] eqn:Hs; try discriminate.
+          destruct (sim_fseek s1 s1' _ _ _ ltac:(unfold R; auto) Hs) as (s3' & Hs' & (Rc & Ru & Rro)).
+          rewrite Hs'.
+          destruct (adfi_read (o_ s3) BLK) as [[[iret bytes] o2]|] eqn:Hr; [|discriminate].
+          inv E. cbn [o_] in Hrd.
+          destruct (sim_read _ _ _ _ _ _ Rro Hr Hrd) as (i2 & Hr' & Rro2).
+          rewrite Hr'. rewrite <- Ru. eexists. split; [reflexivity|]. unfold R; simpl; auto.
+      - inv E. eexists. split; [reflexivity|]. unfold R; auto. }
+    destruct loadF as [[] s2| |] eqn:EL; try discriminate.
+    inv H. cbn [o_ with_cache] in Hfin.
+    destruct (P2 s2 eq_refl Hfin) as (s2' & EI2 & (Rc2 & Ru2 & Rro2)). rewrite EI2.
+    eexists. split; [reflexivity|]. unfold R, with_cache; simpl. rewrite Rc2. auto.
+Qed.
